@@ -131,6 +131,62 @@ def attr_guard_sound(w):
     return res
 
 
+_SCAN_CONTRACT = {}
+
+
+def scan_guard_contract(w):
+    """[(ok, construct, key, why, loc)]: the scan guards the bypass rules accept by role (`has_comment_children(node)`: a bool function of a node
+    that walks `node.children()`) answer `true` exactly when some child is a LineComment or a BlockComment.  The per-child test (a function item
+    or closure handed to `any`, or the body of a loop) is evaluated for every SyntaxKind."""
+    key = w.facts_dir
+    if key in _SCAN_CONTRACT:
+        return _SCAN_CONTRACT[key]
+    from sites import run_function, evaluate_sequence
+    g = grammar.load()
+    out = []
+    guards = [b for b in w.fn_bodies(w.core) if b.def_kind == 'Fn' and re.search(r'has_comment_children$', b.short)]
+    for b in guards:
+        cons = {'fn': b.short}
+        test = None
+        for bi, t in b.calls():
+            if (callee_path(t) or '').endswith('Iterator::any') and len(t['args']) == 2:
+                a = t['args'][1]
+                if a.get('o') == 'const' and 'fn' in a and a['fn']['def']['id'] in w.bodies:
+                    test = w.bodies[a['fn']['def']['id']]
+                else:
+                    v = BodyView(w, b)
+                    for o in v.pv.peel(v.pv.origins_operand(a)):
+                        if o[0] == 'agg' and v.pv.agg_rvalue(o).get('ak') == 'closure':
+                            test = w.bodies.get(v.pv.agg_rvalue(o)['def']['id'])
+        accepted = {}
+        if test is not None:
+            pidx = test.arg_count            # the node is the last parameter (closures: after the environment)
+            for K in g['all_kinds']:
+                res = run_function(w, test, {pidx: kf.Node('child', K)})
+                vals = {repr(r[0]) for r in res or []}
+                accepted[K] = vals
+        else:
+            node_p = [i for i in range(1, b.arg_count + 1) if b.locals[i]['ty']['s'].startswith('&typst_syntax::SyntaxNode')]
+            for K in g['all_kinds']:
+                res = evaluate_sequence(w, b, node_p[0], 'Code', [kf.Node('child', K), 'END'], from_start=True) if node_p else None
+                vals = set()
+                for item in res or []:
+                    if len(item) > 3 and item[3] and item[3][0] == 'ended':
+                        vals.add(repr(item[3][1]))
+                accepted[K] = vals
+        wrong = sorted(K for K, vals in accepted.items() if vals != ({'C(True)'} if K in COMMENT else {'C(False)'}))
+        if not wrong:
+            out.append((True, cons, 'guard-contract|%s' % last(b.short), 'true exactly for a LineComment / BlockComment child (evaluated for %d kinds)' % len(accepted), b.loc()))
+        else:
+            out.append((False, cons, 'guard-contract|%s|%s' % (last(b.short), wrong[0]),
+                        '%s is used as the `no comment inside` guard of the typed-accessor layouts, but its per-child test does not answer `true` exactly for comment children '
+                        '(kinds answered otherwise: %s): a comment it overlooks is dropped by every layout it guards' % (b.short, wrong[:4]), b.loc()))
+    if not guards:
+        out.append((True, {'fn': None}, 'guard-contract|none', 'no scan guard function in this tree (guards are judged where they are used)', None))
+    _SCAN_CONTRACT[key] = out
+    return out
+
+
 def _guard_name_ok(w, name):
     """a no-comment guard by name; attribute reads count only if the attribute is complete"""
     if not NO_COMMENT_GUARD.search(name or ''):
@@ -213,6 +269,8 @@ def r2_typed_accessor_bypass(w):
               'and no dominating no-comment test was found (%s): comments between the accessed children are dropped'
               % (last(fn), parent, sorted({sites_mod.summarise_atom(a, kf.Node('child', None)) for a in wh.atoms})[:6],
                  [((a[3] or '').rsplit('::', 1)[-1], a[4]) for a in wh.assumed[-4:] if len(a) > 4], parent, why), b.loc() if b else None)
+    for ok, cons, key, why, loc in scan_guard_contract(w):
+        (r.ok(cons, why) if ok else r.bad(cons, key, why, loc))
     if n < 40:
         raise AnchorMissing('converters evaluated for the bypass rule (found %d)' % n)
     # functions that rebuild the nodes of a collection they receive (the plain dot-chain layout)
